@@ -127,13 +127,13 @@ static void sink(int kind, int stage, cell* c, unsigned a, unsigned b, unsigned 
 // own triangle quality score as documented: q = (36/sqrt 3) A / P^2.  The product evaluates the rule with the cached
 // face area, which in the product loop is one move stale; a mesh is classified as conforming only when the rule holds both
 // with the area of the current geometry and with the cached one (so that legitimate staleness can never be blamed).
-static bool oracle_conforming(const cell& c, double lmin, double lmax, bool swaps) {
+static bool oracle_conforming(const cell& c, double lmin, double lmax, bool swaps, bool with_cached_area = true) {
     std::vector<V3> P; std::vector<orc::Tri> T; std::vector<unsigned> fslot; gen::extract(c, P, T, nullptr, nullptr, &fslot);
     const auto& fl = cell_tester::faces(c);
     for (size_t k = 0; k < T.size(); k++) { auto& t = T[k]; V3 a = P[t.a], b = P[t.b], cc = P[t.c]; R l[3] = {(a - b).norm(), (b - cc).norm(), (cc - a).norm()};
         for (R x : l) if (!(x > lmin * (1 + 1e-9L) && x < lmax * (1 - 1e-9L))) return false;
         if (swaps) { R A = (b - a).cross(cc - a).norm() / 2, Pm = l[0] + l[1] + l[2]; R q = (36 / std::sqrt((R)3)) * A / (Pm * Pm); if (!(q > 0.2L * (1 + 1e-9L))) return false;
-            R qc = (36 / std::sqrt((R)3)) * (R)fl[fslot[k]].get_area() / (Pm * Pm); if (!(qc > 0.2L * (1 + 1e-9L))) return false; } }
+            if (with_cached_area) { R qc = (36 / std::sqrt((R)3)) * (R)fl[fslot[k]].get_area() / (Pm * Pm); if (!(qc > 0.2L * (1 + 1e-9L))) return false; } } }
     return true;
 }
 
@@ -207,7 +207,7 @@ static std::string run_history(const Args& a, long i) {
     g_mon = &mon; verif::get().remesh_event = sink;
     const int npass = (lens || fan) ? g.range(1, 3) : g.range(5, (int)a.geti("max_passes", 25));
     double D[3] = {1, 1, 1}; gen::Rot frame = gen::rot_random(g); double twist_state = 0;
-    long passes_done = 0, conforming_checked = 0, rebases = 0, direct_ops = 0; bool threw = false; std::string throw_what;
+    long passes_done = 0, repeated_conforming = 0, conforming_checked = 0, rebases = 0, direct_ops = 0; bool threw = false; std::string throw_what;
     long faces_max = 0;
     auto cell_faces = [&]() { return (long)c->get_nb_of_faces(); };
     mon.full_check("initial", true);
@@ -332,6 +332,18 @@ static std::string run_history(const Args& a, long i) {
             R bound = 100 * ((R)E + bound_len) + 1e4L;
             if (!((R)pops <= bound)) mon.viol("c11.operation_bound_exceeded", "a pass performed more operations than 100*(E+sum (len/lmax)^2)+1e4");
         }
+        // ---- (e) the pass repeated at once (cell_divider::run refines the daughters and solver::run_iteration refines them again before any
+        //      cache refresh).  In regime A every cached area was fresh when the first pass started and the operations of a pass maintain the
+        //      caches of the faces they touch, so a mesh that satisfies band and quality rule by its TRUE geometry must be left unchanged.
+        if (mon.oracle_c11 && mon.regimeA && mon.viol_key.empty() && !threw && g.coin(0.4)) {
+            const bool conf2 = oracle_conforming(*c, lmin, lmax, swaps, false); const uint64_t fp2 = conf2 ? rmu::fingerprint(*c) : 0; const long ops2 = mon.opcount;
+            try { lmr.refine_mesh(c); passes_done++; } catch (const std::exception& ex) { threw = true; throw_what = ex.what(); }
+            mon.n_pass++; if (mon.pend_swap) { mon.n_swap_refused++; mon.pend_swap = false; }
+            if (threw) break;
+            if (conf2) { repeated_conforming++; if (mon.opcount != ops2) mon.viol("c11.conforming_mesh_modified:repeated_pass", "a pass repeated at once on a mesh that satisfies the length band and the quality rule (true geometry) performed " + std::to_string(mon.opcount - ops2) + " operations");
+                else if (rmu::fingerprint(*c) != fp2) mon.viol("c11.conforming_mesh_state_changed:repeated_pass", "a repeated pass left a conforming mesh in a different state"); }
+            if (mon.oracle_c01 && mon.viol_key.empty()) { rmu::Inv r = rmu::check_cell(*c, true, nullptr); if (!r.ok) mon.viol("c01." + r.key + "@repeated_pass", r.msg); }
+        }
     }
     mon.on = false; g_mon = nullptr;
     if (!mon.viol_key.empty()) cs.viol(mon.viol_key, mon.viol_msg);
@@ -340,7 +352,7 @@ static std::string run_history(const Args& a, long i) {
     h = hash_combine(h, (uint64_t)c->get_nb_of_faces()); h = hash_combine(h, (uint64_t)c->get_nb_of_nodes()); cs.sig = h;
     cs.obs.s("shape", m.name).i("faces0", (long)m.T.size()).i("faces_end", (long)c->get_nb_of_faces()).i("faces_max", faces_max).d("scale", scale).d("lmin_over_mean_edge", lmin / (gen::mean_edge(m))).d("lmax_over_lmin", ratio)
         .b("swaps", swaps).b("regimeA", mon.regimeA).i("passes", passes_done).i("splits", mon.n_split).i("merges", mon.n_merge).i("swaps_done", mon.n_swap).i("swaps_refused", mon.n_swap_refused)
-        .i("merges_refused", mon.n_merge_refused).i("rebases", rebases).i("direct_ops", direct_ops).i("invariant_checks", mon.inv_checks).i("conforming_checked", conforming_checked).b("threw", threw).s("throw_what", throw_what.substr(0, 120)).i("sample_every", mon.sample_every).b("fan_refused", fan && mon.n_merge_refused > 0);
+        .i("merges_refused", mon.n_merge_refused).i("rebases", rebases).i("direct_ops", direct_ops).i("invariant_checks", mon.inv_checks).i("conforming_checked", conforming_checked).i("repeated_conforming", repeated_conforming).b("threw", threw).s("throw_what", throw_what.substr(0, 120)).i("sample_every", mon.sample_every).b("fan_refused", fan && mon.n_merge_refused > 0);
     return cs.line();
 }
 
@@ -360,7 +372,7 @@ static int cmd_remesh(const Args& a) {
             agg.evaluations++;
             if (skip) { agg.skipped++; agg.bin("skipped_generator_reject"); continue; }
             agg.bin("splits", num("splits")); agg.bin("merges", num("merges")); agg.bin("swaps_done", num("swaps_done")); agg.bin("swaps_refused", num("swaps_refused")); agg.bin("merges_refused", num("merges_refused"));
-            agg.bin("passes", num("passes")); agg.bin("rebases", num("rebases")); agg.bin("direct_ops", num("direct_ops")); agg.bin("invariant_checks", num("invariant_checks")); agg.bin("conforming_checked", num("conforming_checked"));
+            agg.bin("passes", num("passes")); agg.bin("rebases", num("rebases")); agg.bin("direct_ops", num("direct_ops")); agg.bin("invariant_checks", num("invariant_checks")); agg.bin("conforming_checked", num("conforming_checked")); agg.bin("repeated_pass_on_conforming_mesh", num("repeated_conforming"));
             { size_t p = L.find("\"shape\":\""); if (p != std::string::npos) { std::string w = L.substr(p + 9, 24), sl; for (char ch : w) { if (ch == '"') break; if (!std::isdigit((unsigned char)ch)) sl += ch; } agg.bin("shape:" + sl); } }
             if (flag("threw")) { agg.bin("histories_ended_by_exception"); size_t p = L.find("\"throw_what\":\""); if (p != std::string::npos) { std::string w = L.substr(p + 14, 60), sl; for (char ch : w) { if (ch == '"') break; if (std::isalpha((unsigned char)ch)) sl += ch; else if (ch == ' ' && !sl.empty() && sl.back() != '_') sl += '_'; } agg.bin("exception:" + sl.substr(0, 48)); } } if (flag("regimeA")) agg.bin("regimeA_histories"); else agg.bin("regimeB_histories"); if (flag("swaps")) agg.bin("histories_with_swaps_enabled");
             if (flag("fan_refused")) agg.bin("fan_histories_with_refused_pole_collapse");
